@@ -247,6 +247,79 @@ theorem mask_follows_transpose (s s' : St) (t : Dense) (m : Win)
           have := (List.getElem?_eq_some_iff.mp hb).1; exact this)]
         exact hb
 
+/-! ### `Materialize` / `Copy` along iterators: the mask is copied like the elements -/
+
+theorem St.mget_mset_otherbuf {s s' : St} {w w' : Win} {i j : Int} {v : Bool} (h : s.mset w i v = .ok s')
+    (hb : w'.buf ≠ w.buf) : s'.mget w' j = s.mget w' j := by
+  obtain ⟨b, _, _, _, _, rfl⟩ := St.mset_ok h
+  unfold St.mget
+  simp only [Array.set!_eq_setIfInBounds]
+  rw [Array.getElem?_setIfInBounds_ne (Ne.symm hb)]
+
+/-- the pairwise loop of `copyDenseIter` over the mask (destination and source masks in different
+    buffers, as after `Materialize`): the source mask is unchanged, destination entries at offsets
+    the destination iterator does not deliver are unchanged -/
+theorem copyMaskOffsets_frame (dm sm : Win) (hb : sm.buf ≠ dm.buf) :
+    ∀ (doffs soffs : List Int) (s s' : St), Dense.copyMaskOffsets s dm sm doffs soffs = .ok s' →
+      (∀ j, s'.mget sm j = s.mget sm j) ∧ (∀ i, i ∉ doffs → s'.mget dm i = s.mget dm i)
+  | [], _, s, s', h => by
+    simp only [Dense.copyMaskOffsets] at h
+    injection h with h; subst h
+    exact ⟨fun _ => rfl, fun _ _ => rfl⟩
+  | _ :: _, [], s, s', h => by
+    simp only [Dense.copyMaskOffsets] at h
+    injection h with h; subst h
+    exact ⟨fun _ => rfl, fun _ _ => rfl⟩
+  | i :: is, j :: js, s, s', h => by
+    simp only [Dense.copyMaskOffsets, bind, Except.bind] at h
+    cases hv : s.mget sm j with
+    | error e => rw [hv] at h; cases h
+    | ok v =>
+      rw [hv] at h
+      cases h1 : s.mset dm i v with
+      | error e => simp only [h1] at h; cases h
+      | ok s1 =>
+        simp only [h1] at h
+        obtain ⟨ihS, ihD⟩ := copyMaskOffsets_frame dm sm hb is js s1 s' h
+        constructor
+        · intro j'
+          rw [ihS j', St.mget_mset_otherbuf h1 hb]
+        · intro i' hi'
+          have hne : i' ≠ i := fun e => hi' (by rw [e]; exact List.mem_cons_self)
+          rw [ihD i' (fun hm => hi' (List.mem_cons_of_mem _ hm)), St.mget_mset_other h1 hne]
+
+/-- **the mask follows the elements through `Materialize`.** `copyDenseIter` copies element `k`
+    from source offset `soffs[k]` to destination offset `doffs[k]`; the mask loop copies mask bit
+    `soffs[k]` to mask position `doffs[k]` (distinct destination offsets, separate mask buffers): after
+    the copy the bit at the destination position of the `k`-th element is the bit the source held for
+    that element, whatever the two access patterns are. -/
+theorem mask_follows_materialize (dm sm : Win) (hb : sm.buf ≠ dm.buf) :
+    ∀ (doffs soffs : List Int) (s s' : St), Dense.copyMaskOffsets s dm sm doffs soffs = .ok s' →
+      doffs.Nodup → ∀ (k : Nat) (i j : Int), doffs[k]? = some i → soffs[k]? = some j →
+      s'.mget dm i = s.mget sm j
+  | [], _, _, _, _, _, k, i, j, hi, _ => by simp at hi
+  | _ :: _, [], _, _, _, _, k, i, j, _, hj => by simp at hj
+  | i0 :: is, j0 :: js, s, s', h, hnd, k, i, j, hi, hj => by
+    simp only [Dense.copyMaskOffsets, bind, Except.bind] at h
+    cases hv : s.mget sm j0 with
+    | error e => rw [hv] at h; cases h
+    | ok v =>
+      rw [hv] at h
+      cases h1 : s.mset dm i0 v with
+      | error e => simp only [h1] at h; cases h
+      | ok s1 =>
+        simp only [h1] at h
+        have hnd' := List.nodup_cons.mp hnd
+        cases k with
+        | zero =>
+          simp only [List.getElem?_cons_zero, Option.some.injEq] at hi hj
+          subst hi; subst hj
+          rw [(copyMaskOffsets_frame dm sm hb is js s1 s' h).2 i0 hnd'.1, St.mget_mset_same h1, hv]
+        | succ k =>
+          simp only [List.getElem?_cons_succ] at hi hj
+          rw [mask_follows_materialize dm sm hb is js s1 s' h hnd'.2 k i j hi hj,
+            St.mget_mset_otherbuf h1 hb]
+
 /-! ## counts, any, all -/
 
 /-- S's folds on a flat mask -/
@@ -280,6 +353,34 @@ theorem maskCount_spec (s : St) (t : Dense) (m : Win) (bits : List Bool)
 theorem maskCount_unmasked (s : St) (t : Dense) (hk : t.isMasked = false) :
     doMaskCt s t = .ok 0 ∧ doMaskAny s t = .ok false ∧ doMaskAll s t = .ok false := by
   refine ⟨?_, ?_, ?_⟩ <;> simp [doMaskCt, doMaskAny, doMaskAll, hk, pure, Except.pure]
+
+/-- a tensor without mask has no masked edges (-1, -1, as documented), and all of it lies between
+    its unmasked edges -/
+theorem flatEdges_unmasked (s : St) (t : Dense) (hk : t.isMasked = false) :
+    flatEdges s t true = .ok (-1, -1) ∧ flatEdges s t false = .ok (0, t.size - 1) := by
+  constructor <;> simp [flatEdges, hk, pure, Except.pure]
+
+/-- the plain iterator (tensor without mask): `NextInvalid` finds nothing and leaves the iterator
+    exhausted, so the alternating loops of the finders stop after one run -/
+theorem nextInvalid_plain_exhausts (s : St) (it : MIt) (h : it.mask = none) :
+    ∃ r, it.nextInvalid s = .ok r ∧ r.ok = false ∧ r.idx = -1 ∧ r.it.it.done = true := by
+  simp [MIt.nextInvalid, h, pure, Except.pure]
+
+/-- the plain iterator on a scalar: `NextValid` returns the one element with a skip count of one
+    increment (-1 in reverse), like every other shape and like the masked iterator -/
+theorem nextValid_plain_scalar (s : St) (it : MIt) (h : it.mask = none) (hd : it.it.done = false)
+    (hs : it.it.isScalar = true) :
+    ∃ r, it.nextValid s = .ok r ∧ r.ok = true ∧ r.idx = 0 ∧ r.skip = (if it.it.reverse then -1 else 1) ∧
+      r.it.it.done = true := by
+  simp [MIt.nextValid, h, hd, hs, pure, Except.pure]
+
+/-- `Filled` / `FilledInplace` on every non-scalar shape (row and column vectors included) write
+    the fill value at exactly the offsets `NextInvalid` enumerates -/
+theorem fillLoop_nonscalar (s : St) (tc : Dense) (v : Val) (m : Win) (vs : VS)
+    (hs : isScalar tc.shape = false) (hm : (iterFromDense tc).mask = some m)
+    (hv : maskStream s tc m = .ok vs) :
+    fillLoop s tc v = (enumS true vs 0).foldlM (fun s (p : Int × Nat) => s.set tc.win p.1 v) s := by
+  simp [fillLoop, hs, hm, hv, bind, Except.bind]
 
 /-- decision logic of the per-axis variants: an axis past the rank answers -1 -/
 theorem maskedReduce_axis_oob (s : St) (t : Dense) (kind : String) (ax : Int) (rest : List Int)
